@@ -86,6 +86,10 @@ def scc_case(name, keys, edges, rng, ncontainers=3):
 def gen_scc(rng, tier):
     cases = []
     idx = 0
+    # the degenerate containers: never populated, one member, emptied again
+    for v, newc in enumerate(GNEW[:3]):
+        cases.append(Case("sccE%d" % v, "D", [newc, "gscc 0", "new 7 0", "gins 0 0", "gscc 0", "con 0 0 5", "gscc 0", "grem 0 7", "gscc 0", "gscc 0"],
+                          dict(kind="scc-of-empty-and-singleton-containers")))
     nmax = 4 if tier == "thorough" else 3
     for n in range(1, nmax + 1):
         pairs = [(u, v) for u in range(n) for v in range(n)]
@@ -183,42 +187,52 @@ def gen_scc(rng, tier):
 def oracle_scc(case, obs):
     if obs == "HANG":
         return "scc never returns"
-    keys, edges = [], []
+    # the directed multigraph and the member sets AS OF EVERY STEP (edges change between two scc() calls on one container)
+    keys, edges, members = [], [], {}
+    edges_at, members_at = [], []
     for s in case.steps:
         t = s.split()
         if t[0] == "new":
             keys.append(int(t[1]))
         elif t[0] == "con":
             edges.append((int(t[1]), int(t[2])))
-    members = {}
-    for s in case.steps:
-        t = s.split()
-        if t[0] == "gins":
+        elif t[0] == "try":
+            if (int(t[1]), int(t[2])) not in edges:
+                edges.append((int(t[1]), int(t[2])))
+        elif t[0] == "dis":
+            u, k = int(t[1]), int(t[2])
+            for i, (a, b) in enumerate(edges):
+                if a == u and keys[b] == k:
+                    del edges[i]
+                    break
+        elif t[0] == "iso":
+            u = int(t[1])
+            edges[:] = [(a, b) for (a, b) in edges if a != u and b != u]
+        elif t[0] == "gins":
             members.setdefault(int(t[1]), set()).add(int(t[2]))
-    allsccs = true_sccs(len(keys), edges)
-    mutated = any(s.split()[0] in ("dis", "iso", "try") for s in case.steps)
+        elif t[0] == "grem":
+            g, k = int(t[1]), int(t[2])
+            members[g] = set(u for u in members.get(g, set()) if keys[u] != k)
+        edges_at.append(list(edges))
+        members_at.append({g: set(m) for g, m in members.items()})
     for (si, text) in obs:
         st = case.steps[si]
         if text.startswith("panic"):
             return "step %d `%s` panicked" % (si, st)
-        if st == "snap" and mutated:
-            # the graph has a history of removals: its edges are what the implementation itself reports (outgoing lists)
-            nodes = nc.parse_snap(text)
-            if nodes is None:
-                return "step %d: snapshot failed" % si
-            idx = {nd["key"]: i for i, nd in enumerate(nodes)}
-            edges = [(idx[s], idx[t]) for nd in nodes for (s, t, e) in nd["out"]]
-            allsccs = true_sccs(len(keys), edges)
         if st.startswith("gscc"):
-            mem = members.get(int(st.split()[1]), set())
+            edges = edges_at[si]
+            mem = members_at[si].get(int(st.split()[1]), set())
             if any((u in mem) != (v in mem) for (u, v) in edges) or any(u not in mem for (u, v) in edges if v in mem):
                 continue   # a member has a neighbour outside the container: outside the property's hypothesis
+            allsccs = true_sccs(len(keys), edges)
             want = set(frozenset(keys[i] for i in c) for c in allsccs if c <= mem)
             keys_m = [keys[i] for i in sorted(mem)]
             order, rest = parse_ord(text)
             if order is None or not rest.startswith("comps"):
                 return "step %d: unexpected output %s" % (si, text[:80])
             comps = [[int(x) for x in c.split()] for c in re.findall(r"\[([^\]]*)\]", rest)]
+            if any(len(c) == 0 for c in comps):
+                return "step %d: scc() returned an EMPTY component: %s" % (si, comps)
             flat = [k for c in comps for k in c]
             if sorted(flat) != sorted(keys_m):
                 return "step %d: components %s are not a partition of the members %s (container order %s)" % (si, comps, sorted(keys_m), order)
@@ -273,7 +287,7 @@ def gen_container(cls, rng, tier):
         steps = g.steps() + ["gnew"] + ["gins 0 %d" % u for u in range(g.n) if gi < 2 or rng.random() < 0.7]
         for ga in (0, 1, 2):
             for na in (0, 1, 2, 3):
-                for ea in (0, 1, 2, 3, 4, 5):
+                for ea in (0, 1, 2, 3, 4, 5, 6):
                     if cls == "U":
                         steps.append("only:ungraph gdota 0 %d %d %d" % (ga, na, ea))
                     else:
@@ -334,7 +348,7 @@ def gen_container(cls, rng, tier):
                 qs = ["glen", "gvec", "giter", "gorph", "gdot"] + (["groots", "gleaves"] if cls == "D" else [])
                 steps.append("%s %d" % (rng.choice(qs), g))
             else:
-                steps.append(("only:ungraph " if cls == "U" else "") + "gdota %d %d %d %d" % (g, rng.randrange(3), rng.randrange(4), rng.randrange(6)))
+                steps.append(("only:ungraph " if cls == "U" else "") + "gdota %d %d %d %d" % (g, rng.randrange(3), rng.randrange(4), rng.randrange(7)))
         steps.append("snap")
         cases.append(Case("kr%s%d" % (cls, ci), cls, steps, dict(kind="random-container-history")))
     # large containers (100-300 members): views and lookups after many inserts / removes
@@ -611,6 +625,8 @@ def oracle_container(case, obs):
                         want.append('E:%d>%d:[w="%d"]' % (k, kv, e))
                     elif ea == "3":
                         want.append('E:%d>%d:[p="%d>%d:%d"]' % (k, kv, k, kv, e))
+                    elif ea == "6":
+                        want.append('E:%d>%d:[w="%d"][c="x"]' % (k, kv, e))
                     else:
                         want.append("E:%d>%d" % (k, kv))
             if sorted(edges_t) != sorted(want):
